@@ -212,7 +212,7 @@ Definition final_ph (ph : phase) : bool :=
   match ph with PDone | PNone => true | _ => false end.
 
 Definition all_done (g : gstate) : bool :=
-  forallb (fun ts => final_ph (t_ph (snd ts))) g.
+  forallb (fun t => final_ph (t_ph (lookup g t))) (map fst g).
 
 Fixpoint nodupb (l : list Z) : bool :=
   match l with
